@@ -3,13 +3,15 @@
 
   Models: `Model/CacheKey` (cacheKey + ToLowerName), `Model/Netlist` (netlist + range file loader +
   ipMarker.Mark), `Model/MemCache` (the concurrent memory cache with explicit entry locks and an
-  adversarial backend/pool, the sequential otter-as-map layer, the value codec).
+  adversarial backend, the value codec), `Model/QCache` (MemoryCache on a backend with otter's
+  observable quirks, against the ideal TTL map).
   Helper lemmas: `Lemmas/CacheKeyLemmas`, `Lemmas/NetlistLemmas`, `Lemmas/MarkerLemmas`,
-  `Lemmas/MemCacheLemmas`, `Lemmas/MemCacheSeqLemmas`.
+  `Lemmas/MemCacheLemmas`, `Lemmas/QCacheLemmas`.
 -/
 import MosVerif.Lemmas.CacheKeyLemmas
 import MosVerif.Lemmas.MarkerLemmas
-import MosVerif.Lemmas.MemCacheSeqLemmas
+import MosVerif.Lemmas.MemCacheLemmas
+import MosVerif.Lemmas.QCacheLemmas
 import MosVerif.Generated.Facts
 namespace MosVerif.C07
 
@@ -308,21 +310,21 @@ theorem data_race_free {s : State K V} (h : Reachable s) {t t' e : Nat}
     apply no_reader_while_writing h (t' := t') hws
     cases hp : s.pc t' <;> simp_all [Pc.reads, Pc.rsec]
 
-/-- every step of the faithful layer (otter as a map with a deletion queue, `sync.Pool` as a list)
-    is a step of the adversarial layer or leaves the entries and threads untouched -/
+/-- every step of the faithful layer (otter as a map with a deletion queue whose listener may fire
+    repeatedly) is a step of the adversarial layer or leaves the entries and threads untouched -/
 theorem faithful_refines {s s' : FState K V} (h : FStep s s') :
     Step s.core s'.core ∨ s'.core = s.core := by
   cases h with
-  | «local» c c' b st _ _ _ => exact .inl st
-  | newPooled c b t k v nx e pre post hpc _ => exact .inl (.storeNew c t k v nx e hpc)
+  | «local» c c' b st _ _ _ _ => exact .inl st
   | newFresh c b t k v nx hpc => exact .inl (.storeNew c t k v nx b.next hpc)
   | set c b t e k v hpc => exact .inl (.storeSet c t e k v false hpc)
-  | setIfAbsent c b t e k v hpc => exact .inl (.storeSet c t e k v true hpc)
-  | lookupHit c b t k e hpc _ => exact .inl (.getLookupHit c t k e hpc)
+  | setIfAbsent c b t e k v hpc _ => exact .inl (.storeSet c t e k v true hpc)
+  | refused c b t e k v nx hpc => exact .inl (.storeRefused c t e k v nx hpc)
+  | lookupHit c b t k n m e hpc _ => exact .inl (.getLookupHit c t k n m e hpc)
   | evict c b k e _ => exact .inr rfl
+  | expiredLookup c b k e _ => exact .inr rfl
   | listener c b t e pre post hpc _ => exact .inl (.callRelease c t e hpc)
-  | put c b t e hpc => exact .inl (.relPut c t e hpc)
-  | poolDrop c b pre post e _ => exact .inr rfl
+  | listenerAgain c b t e hpc _ => exact .inl (.callRelease c t e hpc)
 
 theorem faithful_reachable {s : FState K V} (h : FReachable s) : Reachable s.core := by
   induction h with
@@ -349,37 +351,168 @@ example : ∃ s : State Nat Nat, Reachable s ∧ s.pc 1 = .gDone 7 (some 42) := 
   have r6 := r5.step (.storeUnlock _ 0 3 7 42 false rfl)
   have r7 := r6.step (.storeSet _ 0 3 7 42 false rfl)
   have r8 := r7.step (.callGet _ 1 7 rfl)
-  have r9 := r8.step (.getLookupHit _ 1 7 3 rfl)
-  have r10 := r9.step (.getTryOk _ 1 3 7 rfl rfl)
-  have r11 := r10.step (.getCheck _ 1 3 7 rfl)
-  have r12 := r11.step (.getCopy _ 1 3 7 rfl)
+  have r9 := r8.step (.getLookupHit _ 1 7 0 0 3 rfl)
+  have r10 := r9.step (.getTryOk _ 1 3 7 0 0 rfl rfl)
+  have r11 := r10.step (.getCheck _ 1 3 7 0 0 rfl)
+  have r12 := r11.step (.getCopy _ 1 3 7 0 0 rfl)
   have r13 := r12.step (.getUnlockHit _ 1 3 7 42 rfl)
   exact ⟨_, r13, rfl⟩
 
-/-- ★ the sequential layer (otter as a map + entry pool) refines a plain finite map: recycling is
-    invisible, one key's operations never affect another key. -/
-theorem seq_refines_map {s : Seq K V} (h : SeqInv s) (ops : List (Op K V)) :
-    SeqInv (s.run ops) ∧ ∀ k, (s.run ops).get k = (ops.foldl aapply s.get) k := run_spec h ops
-
-/-- ★ `repeat_hits` (the converse direction): after `Store(k, …)` has completed, `Get(k)` hits as long
-    as the backend has not evicted or expired `k` (ample capacity, lifetime left), whatever happens
-    to other keys in between. -/
-theorem repeat_hits {s : Seq K V} (h : SeqInv s) (k : K) (v : V) (nx : Bool) (ops : List (Op K V))
-    (hop : ∀ op ∈ ops, ∀ k', op = .evict k' → k' ≠ k) :
-    (((s.store k v nx).run ops).get k).isSome = true := MemCache.repeat_hits h k v nx ops hop
-
 end
 
+/-! ## 3b. the converse direction: `MemoryCache` on a backend with otter's quirks refines the ideal TTL map -/
+section Converse
+open MosVerif.QCache
+variable {K V : Type} [Inhabited K] [DecidableEq K]
+
+/-- ★ refinement, over ALL sequences of stores (positive and negative, any lifetimes incl. 0), lookups
+    (with any glitches), listener calls (also repeated ones for one entry, also for entries whose expired
+    node is still in the backend's map), clock steps and clean-ups: the invariant holds and the cache
+    agrees with the ideal TTL map now and at every later time. -/
+theorem refines_ideal (ops : List (Op K V)) :
+    QInv (run QState.empty ops) ∧ Rel (run QState.empty ops) ((Ideal.empty : Ideal K V).run ops) :=
+  run_rel qinv_empty rel_empty ops
+
+/-- ★ a live key is never reported as a miss: after any history, a lookup whose glitches (dead node,
+    released entry, entry locked by its release — what a lookup racing with replacing stores can meet)
+    stay within the retry budget (≤ 7 in all, ≤ 2 dead misses) returns exactly the ideal map's answer;
+    and *whatever* the glitches, a hit is the ideal map's answer. -/
+theorem live_key_never_misses (ops : List (Op K V)) (k : K) (gl : List Glitch) :
+    (Glitch.ok gl = true →
+      (get (run QState.empty ops) k gl).1 = ((Ideal.empty : Ideal K V).run ops).get k) ∧
+    (∀ v, (get (run QState.empty ops) k gl).1 = some v →
+      ((Ideal.empty : Ideal K V).run ops).get k = some v) := by
+  obtain ⟨h, r⟩ := refines_ideal (K := K) (V := V) ops
+  obtain ⟨_, _, c, d⟩ := get_rel h r k gl
+  exact ⟨d, c⟩
+
+/-- ★ a negative store (`SetIfAbsent`) is dropped only if a live entry exists: with no live entry —
+    in particular with an expired leftover in the backend — it is stored (3a97998) -/
+theorem negative_dropped_only_if_live {s : QState K V} (h : QInv s) (k : K) (v : V) (ttl : Nat)
+    (hpos : 0 < ttl) :
+    view (store s k v ttl true) k = if (view s k).isSome then view s k else some v := by
+  rw [view_store h k v ttl true hpos k]
+  simp
+
+/-- ★ `repeat_hits`: once `Store(k, …)` has completed, a lookup hits (positive stores: with the value just
+    stored) — expired leftovers, earlier listener calls and in-budget glitches notwithstanding -/
+theorem repeat_hits {s : QState K V} (h : QInv s) (k : K) (v : V) (ttl : Nat) (nx : Bool) (hpos : 0 < ttl)
+    (gl : List Glitch) (hgl : Glitch.ok gl = true) :
+    ((get (store s k v ttl nx) k gl).1).isSome = true ∧
+    (nx = false → (get (store s k v ttl nx) k gl).1 = some v) := by
+  obtain ⟨h1, _, _⟩ := store_spec h k v ttl nx
+  have hv := view_store h k v ttl nx hpos k
+  simp only [Glitch.ok, Bool.and_eq_true, decide_eq_true_eq] at hgl
+  have hlive : ∀ w, view (store s k v ttl nx) k = some w → (get (store s k v ttl nx) k gl).1 = some w :=
+    fun w hw => getLoop_live 8 0 gl _ h1 hw (by omega) (by unfold deadCount; omega)
+  constructor
+  · cases hc : (nx && (view s k).isSome) with
+    | true =>
+      simp only [hc, if_true] at hv
+      simp only [Bool.and_eq_true] at hc
+      obtain ⟨w, hw⟩ := Option.isSome_iff_exists.mp hc.2
+      rw [hlive w (hv.trans hw)]; rfl
+    | false =>
+      simp only [hc, Bool.false_eq_true, if_false, if_true] at hv
+      rw [hlive v hv]; rfl
+  · intro hnx
+    subst hnx
+    simp only [Bool.false_and, Bool.false_eq_true, if_false, if_true] at hv
+    exact hlive v hv
+
+/-- ★ an entry is released only when no live node references it: in every reachable state a live
+    node's entry holds its key and value and no listener call is queued for it … -/
+theorem released_only_unreferenced (ops : List (Op K V)) (k : K) (n : Node)
+    (hn : (run (QState.empty : QState K V) ops).nodes k = some n)
+    (hl : (run (QState.empty : QState K V) ops).now < n.exp) :
+    (∃ v, (run (QState.empty : QState K V) ops).ents n.e = (k, some v)) ∧
+      n.e ∉ (run (QState.empty : QState K V) ops).pend :=
+  let h := (refines_ideal (K := K) (V := V) ops).1
+  ⟨h.own k n hn hl, h.notPend k n hn hl⟩
+
+/-- ★ … and nothing leaks: every entry object ever allocated is referenced by the backend's map,
+    queued for the listener, or already released. -/
+theorem no_entry_leaks (ops : List (Op K V)) (e : Nat)
+    (he : e < (run (QState.empty : QState K V) ops).next) :
+    Referenced (run (QState.empty : QState K V) ops) e ∨ e ∈ (run (QState.empty : QState K V) ops).pend ∨
+      ((run (QState.empty : QState K V) ops).ents e).2 = none :=
+  (refines_ideal (K := K) (V := V) ops).1.noLeak e he
+
+end Converse
+
+open MosVerif.QCache in
+/-- the retries are needed (f8fe887): the lookup as it was — one backend call, every stale answer a miss —
+    misses a live key on a single glitch; the repaired lookup returns the value. -/
+example :
+    (getNoRetry (store (QState.empty : QState Nat Nat) 7 42 100 false) 7 [.deadMiss]).1 = none ∧
+    (get (store (QState.empty : QState Nat Nat) 7 42 100 false) 7 [.deadMiss, .released, .locked]).1 = some 42 := by
+  decide
+
+open MosVerif.QCache in
+/-- the leftover removal is needed (3a97998): an expired node makes the backend refuse `SetIfAbsent` -/
+example : (bSetIfAbsent (store (QState.empty : QState Nat Nat) 7 42 0 false) 7 5 100).1 = false ∧
+    (get (store (store (QState.empty : QState Nat Nat) 7 42 0 false) 7 43 100 true) 7 []).1 = some 43 := by
+  decide
+
+open MosVerif.QCache in
 /-- ★ (component `cachehist`) for every history of stores, lookups and client queries the reference
     model's outputs satisfy the property's executable specification. -/
-theorem cachehist_meets_spec (ops : List HOp) : histSpec [] ops (histModel Seq.empty ops) = true :=
-  hist_meets_spec_gen ops Seq.empty [] ⟨seqInv_empty, by intro k f h; simp [Seq.get, Seq.empty] at h, by simp⟩
+theorem cachehist_meets_spec (ops : List HOp) : histSpec [] ops (histModel QState.empty ops) = true :=
+  hist_meets_spec_gen ops QState.empty [] ⟨qinv_empty, by intro k f h; simp [view, viewAt, QState.empty] at h, by simp⟩
 
+open MosVerif.QCache in
+/-- ★ (component `cacheconv`) for every history of the converse-clause component — expired entries,
+    negative answers after them, more than 64 writes with the listener calls they trigger, clock steps —
+    the reference run (MemoryCache on the quirky backend) produces exactly the outputs of the ideal TTL
+    map, which is the specification the implementation's outputs are judged by. -/
+theorem cacheconv_meets_spec (cfgMax : Nat) (ops : List COp) :
+    convSpec cfgMax ops (convModel cfgMax ⟨QState.empty, [], 0⟩ ops) = true := by
+  unfold convSpec
+  rw [conv_eq cfgMax ops ⟨QState.empty, [], 0⟩ ⟨Ideal.empty, [], 0⟩ ⟨qinv_empty, rel_empty, rfl, rfl⟩]
+  exact beq_self_eq_true _
+
+section
+open MosVerif.QCache
 example : histSpec [] [.store "k" "a" false, .get "k"] [.stored, .hit "b"] = false := by decide
 example : histSpec [] [.store "k" "a" false, .get "K"] [.stored, .hit "a"] = false := by decide
 example : histSpec [] [.store "k" "a" false, .get "k"] [.stored, .miss] = false := by decide
 example : histSpec [] [.handle "k" "a", .handle "k" "b"] [.upstream "a", .upstream "b"] = false := by decide
 example : histSpec [] [.handle "k" "a", .handle "k" "b"] [.upstream "a", .cached "a"] = true := by decide
+/-- the converse specification rejects: a negative answer not cached after an expired entry (finding 3),
+    a long-lived key lost after the writes (finding 1), an upstream exchange during replacing stores (finding 4) -/
+example : convSpec 21600 [.x "0", .h "0" "1" .n, .h "0" "2" .n] [.x, .u "1", .u "2"] = false := by decide
+example : convSpec 21600 [.x "0", .h "0" "1" .n, .h "0" "2" .n] [.x, .u "1", .c "1"] = true := by decide
+example : convSpec 21600 [.h "1" "1" .p, .w 2, .v] [.u "1", .w, .v 1] = false := by decide
+example : convSpec 21600 [.h "0" "1" .p, .r "0" 10 2, .h "0" "2" .p] [.u "1", .up 3, .c "0"] = false := by decide
+/-- a negative answer is dropped while a positive one is live, and stored once that one has expired -/
+example : convSpec 21600 [.h "0" "1" .t, .s "0" "2" .n, .g "0", .z 2600, .s "0" "3" .n, .g "0"]
+    [.u "1", .s, .hit "1", .z, .s, .hit "3"] = true := by decide
+
+/-! the backend's 32-bit arithmetic and the two clamps (3baf9cd, 949de0e) -/
+
+/-- a positive configured size never becomes capacity 0 -/
+theorem size_clamp_ok (size : Nat) (h : 0 < size) : 0 < backendCapacity (clampSize size) := by
+  unfold backendCapacity clampSize
+  split <;> omega
+
+example : backendCapacity 4294967296 = 0 := by decide
+example : backendCapacity (clampSize 4294967296) = 4294967295 := by decide
+
+/-- with the lifetime capped at ten years an entry is not born expired: its backend expiry is in the
+    future for every configured maximum and every record ttl, while the process is younger than
+    2^32 s − ten years (≈ 126 years) -/
+theorem ttl_clamp_no_wrap (now maximumTtl ttl : Nat) (hnow : now + tenYears < 2 ^ 32)
+    (hpos : 0 < clampTtl maximumTtl ttl) :
+    backendExpiry now (clampTtl maximumTtl ttl) = now + clampTtl maximumTtl ttl ∧
+    now < backendExpiry now (clampTtl maximumTtl ttl) := by
+  have hle : clampTtl maximumTtl ttl ≤ tenYears := by unfold clampTtl; omega
+  unfold backendExpiry
+  unfold tenYears at *
+  omega
+
+/-- without the cap: ttl 2^32−1 one second after start is an expiry in the past -/
+example : backendExpiry 1 (2 ^ 32 - 1) = 0 := by decide
+end
 
 /-! ## 4. end to end: a hit was stored for the same question and client group -/
 open MosVerif.CacheKey
@@ -481,18 +614,40 @@ theorem pins :
   (repeat' apply And.intro) <;> rfl
 
 theorem pins_memcache :
-    Facts.mc_tryRLock = "e.l.TryRLock()" ∧
+    Facts.mc_tryRLock = "!e.l.TryRLock()" ∧
     Facts.mc_recheck = "e.v == nil || e.k != string(k)" ∧
-    Facts.mc_getLocked = "if e.l.TryRLock() { if e.v == nil || e.k != string(k) { e.l.RUnlock() return nil, time.Time{}, time.Time{} } v = pool.CopyBuf(e.v) storedTime = e.storedTime expireTime = e.expireTime e.l.RUnlock() c.hitTotal.Inc() return v, storedTime, expireTime }" ∧
-    Facts.mc_storeBody = "{ ks := string(k) vCopy := pool.CopyBuf(v) e := newCacheEntry() e.l.Lock() e.storedTime = storedTime e.expireTime = expireTime e.k = ks e.v = vCopy e.l.Unlock() ttl := time.Until(expireTime) if setNX { c.backend.SetIfAbsent(ks, e, ttl) } else { c.backend.Set(ks, e, ttl) } }" ∧
-    Facts.mc_setIfAbsent = "c.backend.SetIfAbsent(ks, e, ttl)" ∧
-    Facts.mc_releaseBody = "{ e.l.Lock() e.storedTime = time.Time{} e.expireTime = time.Time{} e.k = \"\" if e.v != nil { pool.ReleaseBuf(e.v) e.v = nil } e.l.Unlock() cacheEntryPool.Put(e) }" ∧
+    Facts.mc_getBody = "{ c.getTotal.Inc() misses := 0 for retry := 0; retry < 8; retry++ { e, ok := c.backend.Get(utils.Bytes2StrUnsafe(k)) if !ok { if misses++; misses < 3 { continue } break } if !e.l.TryRLock() { continue } if e.v == nil || e.k != string(k) { e.l.RUnlock() continue } v = pool.CopyBuf(e.v) storedTime = e.storedTime expireTime = e.expireTime e.l.RUnlock() c.hitTotal.Inc() return v, storedTime, expireTime } return nil, time.Time{}, time.Time{} }" ∧
+    Facts.mc_getBudget = "retry < 8" ∧
+    Facts.mc_getMisses = "misses < 3" ∧
+    Facts.mc_storeBody = "{ ks := string(k) vCopy := pool.CopyBuf(v) e := newCacheEntry() e.l.Lock() e.storedTime = storedTime e.expireTime = expireTime e.k = ks e.v = vCopy e.l.Unlock() ttl := time.Until(expireTime) if setNX { l := &c.storeLocks[maphash.String(storeLockSeed, ks)%uint64(len(c.storeLocks))] l.Lock() defer l.Unlock() ok := c.backend.SetIfAbsent(ks, e, ttl) if !ok { if _, alive := c.backend.Get(ks); !alive { c.backend.Delete(ks) ok = c.backend.SetIfAbsent(ks, e, ttl) } } if !ok { releaseEntry(e) } } else { l := &c.storeLocks[maphash.String(storeLockSeed, ks)%uint64(len(c.storeLocks))] l.Lock() defer l.Unlock() if !c.backend.Set(ks, e, ttl) { releaseEntry(e) } } }" ∧
+    Facts.mc_setIfAbsent = "ok := c.backend.SetIfAbsent(ks, e, ttl)" ∧
+    Facts.mc_leftover = "!alive" ∧
+    Facts.mc_releaseBody = "{ e.l.Lock() e.storedTime = time.Time{} e.expireTime = time.Time{} e.k = \"\" if e.v != nil { pool.ReleaseBuf(e.v) e.v = nil } e.l.Unlock() }" ∧
+    Facts.mc_newEntry = "{ return new(cacheEntry) }" ∧
     Facts.mc_listener = "releaseEntry(value)" ∧
     Facts.cv_pack = "n, err := m.Pack(b, false, 0)" ∧
     Facts.cv_encode = "compressedMsgBytes := s2.Encode(compressBuf, b)" ∧
     Facts.cv_decode = "decoded, err := s2.Decode(decodeBuf, m)" ∧
     Facts.cv_unpack = "return dnsmsg.UnpackMsg(decoded)" := by
   (repeat' apply And.intro) <;> rfl
+
+/-- the five repairs the converse direction rests on: no entry recycling + idempotent release (fb0d3a6,
+    `mc_newEntry`, `mc_releaseBody`), leftover removal under the stripe lock and release of a refused
+    entry (3a97998, `mc_storeBody`, `mc_leftover`), lookup retries (f8fe887, `mc_getBody`), the size clamp
+    (3baf9cd) and the lifetime cap (949de0e; the constant is in nanoseconds) -/
+theorem pins_repairs :
+    Facts.mc_newEntry = "{ return new(cacheEntry) }" ∧
+    Facts.mc_getBudget = "retry < 8" ∧
+    Facts.mc_getMisses = "misses < 3" ∧
+    Facts.mc_leftover = "!alive" ∧
+    Facts.mc_sizeClampCond = "uint64(size) > math.MaxUint32" ∧
+    Facts.mc_sizeClamp = "size = math.MaxUint32" ∧
+    Facts.mc_builder = "builder, err := otter.NewBuilder[string, *cacheEntry](size)" ∧
+    Facts.cc_ttlLimit = 1000000000 * MosVerif.QCache.tenYears ∧
+    Facts.cc_ttlClampCond = "c.maximumTtl > maxCacheTtlLimit" ∧
+    Facts.cc_ttlClamp = "c.maximumTtl = maxCacheTtlLimit" ∧
+    Facts.cc_ttlApply = "ttl > c.maximumTtl" := by
+  refine ⟨rfl, rfl, rfl, rfl, rfl, rfl, rfl, by decide, rfl, rfl, rfl⟩
 
 theorem pins_netlist :
     Facts.nl_overlap = "rs[i].end.cmp(rs[i+1].start) >= 0" ∧
